@@ -484,12 +484,55 @@ def r3_lazy_tool_reset(ctx, sym):
                 ctx.analysed_function(r[1], fn)
                 p = [a.arg for a in fn.args.args + fn.args.kwonlyargs]
                 rep = 'report' if 'report' in p else (p[0] if p else 'report')
+                # the reset executed abstractly twice on a model report: what it stores the second time must be a new
+                # object that does not contain anything the first call stored (every constructor is a fresh object)
+                decided = None
+                try:
+                    stored = []
+                    report_obj = Obj('report', __open__=True)
+                    symexec.method(report_obj, '__setitem__', lambda k, v: stored.append((k, v)))
+                    symexec.method(report_obj, '__getitem__', lambda k: next(v for kk, v in reversed(stored) if kk == k))
+                    symexec.method(report_obj, '__contains__', lambda k: any(kk == k for kk, _ in stored))
+
+                    def fresh_obj(name_):
+                        def make(*a, **k):
+                            return Obj('new:' + name_, __open__=True)
+                        make._fd_callable = True
+                        return make
+                    class_names = {q for (mn, q) in sym.classes if '.' not in q}
+                    fd_r = symexec.new_fd(sym, r[1], calls={cn: fresh_obj(cn) for cn in class_names},
+                                          extra={'MAIN_REPORT': report_obj})
+                    for _ in range(2):
+                        fd_r.call_function(fn, [], {rep: report_obj})
+                    firsts = [v for k, v in stored[:len(stored) // 2]]
+                    seconds = [v for k, v in stored[len(stored) // 2:]]
+
+                    def parts(v, acc):
+                        if id(v) in acc:
+                            return acc
+                        if isinstance(v, (dict, list, Obj)):
+                            acc[id(v)] = v
+                        for x in (list(v.values()) if isinstance(v, dict) else v if isinstance(v, list) else
+                                  list(v.attrs.values()) if isinstance(v, Obj) else []):
+                            parts(x, acc)
+                        return acc
+                    old_parts = {}
+                    for v in firsts:
+                        parts(v, old_parts)
+                    old_parts.pop(id(report_obj), None)
+                    new_parts = {}
+                    for v in seconds:
+                        parts(v, new_parts)
+                    decided = bool(stored) and len(firsts) == len(seconds) and not (set(old_parts) & set(new_parts))
+                except (Raised, Inconclusive, StopIteration, AnalysisError):
+                    decided = None
                 assigns = [x for x in body_walk(fn) if isinstance(x, ast.Assign)
                            and isinstance(x.targets[0], ast.Subscript) and norm(x.targets[0].value) == rep]
                 fresh = bool(assigns) and all(isinstance(a.value, (ast.Dict, ast.Call)) for a in assigns)
                 reuse = [x for x in ast.walk(fn) if isinstance(x, ast.Call) and isinstance(x.func, ast.Attribute)
                          and x.func.attr in ('clear', 'update') and norm(x.func.value).startswith(rep + '[')]
-                ctx.check(fresh and not reuse, 'R3', 'reset@%s:fresh' % r[1].name, r[1], fn,
+                ctx.check(decided if decided is not None else (fresh and not reuse), 'R3',
+                          'reset@%s:fresh' % r[1].name, r[1], fn,
                           "the tool reset mutates the previous data instead of replacing report[TOOL_NAME] with a "
                           "fresh object", "objects cached by the tool for the previous submission stay reachable")
     ctx.floor('R3', 'registered tools', n, 5)
